@@ -16,6 +16,7 @@ INFO = dict(
                 thorough="K = 10 iterations, stores of 10-12 points"),
     outside=["more iterations than K", "the threefry stream and the residual values (irrelevant to the schedule: left symbolic)", "RAR driven through jinns.solve (the same trigger_rar calls are traced directly; C07 covers the loop)"],
     assumptions=["start_iter >= 0, update_every >= 1", "jax.random contracts; argsort/top_k = declarative sorted-permutation contract"],
+    fresh_process=True,       # one process per configuration: step functions / counters kept at module level by an earlier configuration must not be reused
 )
 
 
@@ -26,6 +27,9 @@ def configs(tier):
         for d in ((1,) if kind == "ode" else (2, 1)):
             out.append(dict(kind=kind, K=K, d=d, x64=True))
     out.append(dict(kind="nonstatio", K=K, d=1, time_first=True, x64=True))     # the time store fills before the space store
+    for kind in ("ode", "statio", "nonstatio"):                                 # free room that is not a multiple of the selected size
+        out.append(dict(kind=kind, K=K, d=1, odd=True, x64=True))
+    out.append(dict(kind="ode", K=K, d=1, after_other=True, x64=True))          # init_rar of ANOTHER generator (same candidate size, other selected size) ran before, in the same process
     out.append(dict(kind="ode", K=K, d=1, resume=3, x64=True))                  # solve called again with the returned generator after 3 iterations
     out.append(dict(kind="nonstatio", K=K, d=1, resume=3, x64=True))            # same, product domain (the returned generator carries its sizes as arrays)
     if tier == "thorough":
@@ -37,7 +41,7 @@ def configs(tier):
 KEY = None
 
 
-def build(kind, start, every, d=1, ncomp=1, time_first=False, system=False):
+def build(kind, start, every, d=1, ncomp=1, time_first=False, system=False, odd=False, sel_t=2, hetero=False):
     global KEY
     import jinns
     from jinns.parameters import Params
@@ -46,7 +50,7 @@ def build(kind, start, every, d=1, ncomp=1, time_first=False, system=False):
     if KEY is None: KEY = jax.random.PRNGKey(11)
     key = KEY
     sc = lambda v: jnp.ravel(v)[0]
-    rp = {"start_iter": start, "update_every": every, "sample_size_times": 3, "selected_sample_size_times": 2,
+    rp = {"start_iter": start, "update_every": every, "sample_size_times": 3, "selected_sample_size_times": sel_t,
           "sample_size_omega": 4, "selected_sample_size_omega": 2, "sample_size": 3, "selected_sample_size": 2}
     if kind == "ode" and system:
         # a system of two ODEs (declared in non-alphabetical order) with two unknowns: candidates are ranked by the SUM over the equations
@@ -70,8 +74,9 @@ def build(kind, start, every, d=1, ncomp=1, time_first=False, system=False):
                 return jnp.stack([psi(c)((1.0 + c) * u(t, p)[0] + 0.5 * sc(t)) for c in range(ncomp)])
         params = Params(nn_params=u.init_params(), eq_params={"kappa": jnp.array(1.3)})
         loss = LossODE(u=u, dynamic_loss=Eq(Tmax=1), params=params)
-        data = DG.DataGeneratorODE(key, 9, 0.0, 1.0, 2, rar_parameters=rp, nt_start=3)
-        sizes = dict(times=(9, 3, 2))
+        nt_tot = 8 if odd else 9              # odd: the free room (5) is not a multiple of the selected size (2)
+        data = DG.DataGeneratorODE(key, nt_tot, 0.0, 1.0, 2, rar_parameters=rp, nt_start=3)
+        sizes = dict(times=(nt_tot, 3, sel_t))
     elif kind == "statio":
         u = mk_pinn(d, 1, "statio_PDE", deg=1, H=1)
         class Eq(PDEStatio):
@@ -80,21 +85,28 @@ def build(kind, start, every, d=1, ncomp=1, time_first=False, system=False):
                 return jnp.stack([psi(c)((1.0 + c) * u(x, p)[0] + 0.5 * x[0]) for c in range(ncomp)])
         params = Params(nn_params=u.init_params(), eq_params={"kappa": jnp.array(1.3)})
         loss = LossPDEStatio(u=u, dynamic_loss=Eq(Tmax=1), params=params)
-        data = DG.CubicMeshPDEStatio(key=key, n=8, nb=None, omega_batch_size=2, omega_border_batch_size=None, dim=d, min_pts=(0.0,) * d, max_pts=(1.0,) * d,
+        n_tot = 7 if odd else 8
+        data = DG.CubicMeshPDEStatio(key=key, n=n_tot, nb=None, omega_batch_size=2, omega_border_batch_size=None, dim=d, min_pts=(0.0,) * d, max_pts=(1.0,) * d,
                                      rar_parameters=rp, n_start=4)
-        sizes = dict(omega=(8, 4, 2))
+        sizes = dict(omega=(n_tot, 4, 2))
     else:
         u = mk_pinn(1 + d, 1, "nonstatio_PDE", deg=1, H=1)
         class Eq(PDENonStatio):
-            def equation(self, t, x, u, p): return psi(0)(u(t, x, p)[0] + 0.5 * t[0] + 0.25 * x[0])
+            def equation(self, t, x, u, p): return psi(0)(u(t, x, p)[0] + 0.5 * t[0] + 0.25 * x[0] + (sc(p.eq_params["kappa"]) if hetero else 0.0))
         params = Params(nn_params=u.init_params(), eq_params={"kappa": jnp.array(1.3)})
-        loss = LossPDENonStatio(u=u, dynamic_loss=Eq(Tmax=1), params=params)
-        n_, n0_, nt_, nt0_ = (13, 4, 7, 3) if time_first else (10, 4, 9, 3)
+        # hetero: kappa is a space-time dependent coefficient (the residual the loss minimises is the one with kappa(t, x))
+        hk = dict(eq_params_heterogeneity={"kappa": _het_kappa}) if hetero else {}
+        loss = LossPDENonStatio(u=u, dynamic_loss=Eq(Tmax=1, **hk), params=params)
+        n_, n0_, nt_, nt0_ = (13, 4, 7, 3) if time_first else ((9, 4, 8, 3) if odd else (10, 4, 9, 3))
         rp = dict(rp, selected_sample_size_omega=3)
         data = DG.CubicMeshPDENonStatio(key=key, n=n_, nb=None, nt=nt_, omega_batch_size=2, omega_border_batch_size=None, temporal_batch_size=2, dim=d,
                                         min_pts=(0.0,) * d, max_pts=(1.0,) * d, tmin=0.0, tmax=1.0, rar_parameters=rp, n_start=n0_, nt_start=nt0_)
         sizes = dict(times=(nt_, nt0_, 2), omega=(n_, n0_, 3))
     return data, loss, params, sizes
+
+
+def _het_kappa(t, x, u, p):
+    return psi(2)(p.eq_params["kappa"] + 4.0 * t[0] - 3.0 * x[0])
 
 
 def snapshot(kind, data):
@@ -107,7 +119,7 @@ def snapshot(kind, data):
 def run(cfg, R):
     from jinns.solver._rar import init_rar, trigger_rar
     kind, K, d = cfg["kind"], cfg["K"], cfg.get("d", 1)
-    tf = cfg.get("time_first", False)
+    tf = cfg.get("time_first", False); odd = cfg.get("odd", False)
     resume = cfg.get("resume", 0)
     Kfull = K; K = K - resume
     build(kind, 1, 2, d)          # creates the (concrete) PRNG key outside the traced function
@@ -133,7 +145,9 @@ def run(cfg, R):
             rp2 = dict(data.rar_parameters); rp2["start_iter"] = start; rp2["update_every"] = every
             data = eqx.tree_at(lambda m: m.rar_parameters, data, rp2)
         else:
-            data, loss, params, _ = build(kind, start, every, d, time_first=tf)
+            data, loss, params, _ = build(kind, start, every, d, time_first=tf, odd=odd)
+        if cfg.get("after_other"):
+            init_rar(build(kind, start, every, d, sel_t=1)[0])          # an earlier solve() of this process, on a generator that selects ONE point per step
         data, t_, f_ = init_rar(data)                     # what every jinns.solve call does first
         outs = [snapshot(kind, data)]
         for i in range(K):                                # (K already excludes the first leg of a resumed run)
@@ -141,8 +155,8 @@ def run(cfg, R):
             outs.append(snapshot(kind, data))
         return outs
 
-    _, _, _, sizes = build(kind, 1, 2, d, time_first=tf)
-    name = f"{kind}/d{d}/K{Kfull}" + ("/time-first" if tf else "") + (f"/resumed-after-{resume}" if resume else "")
+    _, _, _, sizes = build(kind, 1, 2, d, time_first=tf, odd=odd)
+    name = f"{kind}/d{d}/K{Kfull}" + ("/time-first" if tf else "") + ("/free-room-not-multiple" if odd else "") + ("/after-another-generator" if cfg.get("after_other") else "") + (f"/resumed-after-{resume}" if resume else "")
     tr = R.trace(name, f, (start0, every0), key=f"{kind}:d={d}" + (":resumed" if resume else "") + ":raises", use_stubs=True)
     if tr is None: return
     start, every = tr.A[0][()], tr.A[1][()]
@@ -200,7 +214,7 @@ def run(cfg, R):
                 if not all(t.is_const for t in nz):
                     G.append((f"after iteration {i}: probability mask of {key_} is concrete along a path", tm.FALSE)); continue
                 c = sum(1 for t in nz if t.val != 0)
-                G.append((f"after iteration {i}: #{{p_{key_} != 0}} == {key_}_start + J*selected (J = {J} steps so far)", const(c == n0 + J * sel, "Bool")))
+                G.append((f"after iteration {i}: #{{p_{key_} != 0}} == {key_}_start + J*selected (J = steps so far)", const(c == n0 + J * sel, "Bool")))     # (the name must not depend on the run: replays look goals up by name)
                 G.append((f"after iteration {i}: active {key_} count never exceeds the store", const(c <= ntot, "Bool")))
         return G
 
